@@ -411,6 +411,7 @@ fn c15_crafted_archives() {
     let d = dict::ChunkDictionary { chunker_params: Some(base_params.clone()), chunk_compression: Some(dict::ChunkCompression { compression: 0, compression_level: 0 }), ..d };
     let valid = bitar::header::build(&d, None).unwrap();
     for sz in [0u64, 1, 13, 14, valid.len() as u64, 1 << 20, 1 << 31, 1 << 32, 1 << 46, 1 << 62, 1 << 63, u64::MAX - 72, u64::MAX - 71, u64::MAX] {
+        println!("STAGE dictionary size field of a valid archive set to {}", sz);
         let mut b = valid.clone();
         b[6..14].copy_from_slice(&sz.to_le_bytes());
         guarded(format!("dictionary size field set to {}", sz), move || exercise(b));
